@@ -822,13 +822,18 @@ _run_main = run
 
 def run(ctx):   # noqa: F811
     _run_main(ctx)
-    from harness import c12_extra
+    from harness import c12_extra, c12_own
     c12_extra.run(ctx)
+    c12_own.run(ctx)    # result ownership histories: caller edits returned tensors in place, then calls again
+
 
 def replay(path):
     d = json.load(open(path))
     rep = d.get('replay', {})
     print(json.dumps({k: v for k, v in d.items() if k != 'replay'}, indent=1))
+    if rep.get('function') == 'ownership-history':
+        from harness import c12_own
+        return c12_own.replay_rep(rep)
     if 'mps' not in rep or not isinstance(rep['mps'], list):
         print(json.dumps(rep, indent=1)[:3000])
         return 0
